@@ -492,7 +492,13 @@ def judge(case, c: D.Campaign, viol, info):
                 info["bad-confirmed:" + kind] = 1
                 open_exp.remove(exp)
             elif r.state == "Paused" and r.status == "Error":
-                if not r.failed and not r.injected and not r.foreign:
+                # only an error signalled since the line was reached makes this an error pause: Method Status can still show the
+                # error of an earlier run (Restart does not reset it) while the pause is the user's
+                err_since = any(e[1] == "method_error" for rr in recs[ri:i + 1] for e in rr.events)
+                if not err_since:
+                    info["window-disturbed"] = info.get("window-disturbed", 0) + 1
+                    info["paused-with-stale-error-status"] = 1
+                elif not r.failed and not r.injected and not r.foreign:
                     viol("failed-line-missing:%s" % kind, "line %r (%s) started, the run is in Error + Paused at tick %d but failed_line_ids is empty"
                          % (texts_of(r, lid), kind, r.no))
                 else:
@@ -583,7 +589,7 @@ def shrink_hints(case):
         yield c2
 
 
-_CLASS_KEYS = ("S-confirmed", "S-confirmed-in-later-run", "second-act", "k2-confirmed", "k2-confirmed-with-other-failed-lines", "k2-dropped", "raised", "errors", "error-with-stop", "error-with-unpause", "error-without-attributed-instruction", "error-in-injected-instruction", "failed-line-confirmed", "state-tags-simulated", "pause-held", "window-disturbed", "bad-reached", "bad-confirmed", "stop:ok",
+_CLASS_KEYS = ("paused-with-stale-error-status", "S-confirmed", "S-confirmed-in-later-run", "second-act", "k2-confirmed", "k2-confirmed-with-other-failed-lines", "k2-dropped", "raised", "errors", "error-with-stop", "error-with-unpause", "error-without-attributed-instruction", "error-in-injected-instruction", "failed-line-confirmed", "state-tags-simulated", "pause-held", "window-disturbed", "bad-reached", "bad-confirmed", "stop:ok",
                "stop:already-stopped", "fix:tail-ran", "fix:status-ok", "fix:edit-refused", "fix:merge_method", "fix:set_method", "fix:skip:not-in-error-pause",
                "fix:skip:edited-or-injected", "fix:skip:no-failed-line", "method-state-raised")
 
